@@ -1,5 +1,6 @@
 import WzVerif.Driver.Proto
 import WzVerif.Model.Url
+import WzVerif.Model.UrlSplit
 namespace Wz.Driver.C15
 open Wz Wz.Proto Wz.Url
 
@@ -28,7 +29,48 @@ def parts (args : List String) : Option Parts :=
 def split (s : Split) : String :=
   ",".intercalate [hexStr s.scheme, hexStr s.netloc, hexStr s.path, hexStr s.query, hexStr s.fragment]
 
+/-- the opaque parameters as the harness evaluated them for this one URL: constant verdicts of
+`_check_bracketed_host` / the NFKC test, and the host conversion at the raw host text -/
+def opaqueOf (bracketOk nfkcOk : Bool) (raw : Str) (conv : Option Str) : UrlOpaque :=
+  { bracketOk := fun _ => bracketOk, nfkcOk := fun _ => nfkcOk,
+    hostToAscii := fun h => if h == raw then conv else none,
+    hostToUnicode := fun h => if h == raw then conv else none }
+
+def exc (r : Except String String) : String :=
+  match r with
+  | .ok s => s
+  | .error e => "EXC:" ++ e
+
 def handle : Handler
+  | "urlsplit", [url, b, n] =>
+    match unhexStr url, boolArg b, boolArg n with
+    | some url, some b, some n =>
+      let o := opaqueOf b n [] none
+      some (exc (do
+        let sp ← urlsplit o url
+        let ui := userinfo sp.netloc
+        let hi := hostinfo sp.netloc
+        let port := match portOf sp.netloc with
+          | .ok p => outOpt toString p
+          | .error e => "EXC:" ++ e
+        pure (split sp ++ "|" ++ outOpt hexStr ui.1 ++ "," ++ outOpt hexStr ui.2 ++ "," ++ hexStr hi.1
+          ++ "," ++ port)))
+    | _, _, _ => some badArgs
+  | "urlunsplit", [a, b, c, d, e] =>
+    match unhexStr a, unhexStr b, unhexStr c, unhexStr d, unhexStr e with
+    | some a, some b, some c, some d, some e =>
+      some (hexStr (urlunsplit { scheme := a, netloc := b, path := c, query := d, fragment := e }))
+    | _, _, _, _, _ => some badArgs
+  | "iri2uri-url", [url, b, n, raw, conv] =>
+    match unhexStr url, boolArg b, boolArg n, unhexStr raw, optArg unhexStr conv with
+    | some url, some b, some n, some raw, some conv =>
+      some (exc ((iriToUriText (opaqueOf b n raw conv) url).map hexStr))
+    | _, _, _, _, _ => some badArgs
+  | "uri2iri-url", [url, b, n, raw, conv] =>
+    match unhexStr url, boolArg b, boolArg n, unhexStr raw, optArg unhexStr conv with
+    | some url, some b, some n, some raw, some conv =>
+      some (exc ((uriToIriText (opaqueOf b n raw conv) url).map hexStr))
+    | _, _, _, _, _ => some badArgs
   | "quote", [safe, s] =>
     match unhexStr safe, unhexStr s with
     | some safe, some s => some (hexStr (quote safe s))
